@@ -1497,8 +1497,19 @@ fn pattern_case(ctx: &mut Ctx, r: &mut Rng) {
             match (got, plain) {
                 (Ok(got), Ok(plain)) => {
                     let want = if pat.mode.contains(PMode::MUST_BE_DIR) && !is_dir { false } else { plain };
+                    // the prefix-cut variant (see above) is accepted as well
+                    let want_cut = match pat.first_wildcard_pos {
+                        Some(pos) if pos > 0 && !pat.mode.contains(PMode::ENDS_WITH) && !(pat.mode.contains(PMode::MUST_BE_DIR) && !is_dir) => {
+                            let prefix_eq = subject.len() >= pos
+                                && if flags & gitwm::WM_CASEFOLD != 0 { subject[..pos].eq_ignore_ascii_case(&text[..pos]) } else { subject[..pos] == text[..pos] };
+                            Some(prefix_eq && guard(|| gix_wm(&text[pos..], &subject[pos..], flags)).unwrap_or(plain))
+                        }
+                        _ => None,
+                    };
                     ctx.distinct(("repo-relative", pat.mode.bits(), is_dir, case == Case::Fold, got));
-                    if got != want {
+                    if got != want && want_cut == Some(got) {
+                        ctx.count("pattern_cases_matching_only_the_prefix_cut_variant");
+                    } else if got != want {
                         ctx.violation(
                             &format!(
                                 "pattern-repo-relative|{}|pattern-{}",
